@@ -9,13 +9,15 @@
                                    struct.pack, registration of the one-shot port callback)
                    UPut(u)         request_queue.put and return
      updater       UpdGet          request_queue.get
-                   UpdLock         wait_lock.acquire, _lock_pattern := ..., up to _send_lock.acquire
+                   UpdLock         wait_lock.acquire, _lock_pattern := ... and (misc requests)
+                                   _reply_callback := the request's reply callback, up to _send_lock.acquire
                    UpdSend         _send_lock.acquire, link.send_packet (device receives it)
                    UpdDone         _send_lock.release, back to request_queue.get
      dispatcher    DispRecv        link.receive_packet, packet_received callbacks, snapshot of the
                                    port callbacks, _ParamUpdater._new_packet_cb up to
                                    wait_lock.release (or, without a lock match, all callbacks)
-                   DispRel         wait_lock.release, then the one-shot callbacks of the snapshot
+                   DispRel         wait_lock.release, then the reply callback taken in DispRecv (pre-fix
+                                   variants: the one-shot port callbacks of the snapshot)
      device (env)  DevAnswer       serve the oldest received request, emit the reply
                    DevNotify(n)    change a value, emit an unsolicited value-changed packet
 
@@ -23,11 +25,15 @@
    real code runs it before every recorded execution; its extended-type outcome is judged by the
    monitor directly (ParamProtoProps!ExtClause).  Disconnects, retransmission timers, protocol V1.
 
-   Bug = "cmdOnly"  the one-shot callbacks of persistent_store/clear/get_state/get_default_value
-                    match on channel and command byte only (the code as it is today)
-         "cmdId"    ... on command byte and parameter index (a partial repair)
-         "none"     a reply callback belongs to its request: it runs exactly when the reply that
-                    releases that request is dispatched (intended behaviour)
+   Bug = "none"     the code as repaired (/repo 90bc5a0): the reply callback of persistent_store/clear/
+                    get_state/get_default_value travels with its request (pk.reply_callback in the
+                    request-queue entry); _ParamUpdater.run copies it to _reply_callback next to
+                    _lock_pattern; the MISC branch of _new_packet_cb takes it when the lock pattern
+                    matches, releases wait_lock, then calls it with the packet.  Nothing is registered
+                    as a port callback.
+         "cmdOnly"  pre-fix: the callback is registered as a one-shot port callback at call time and
+                    matches on channel and command byte only
+         "cmdId"    pre-fix variant matching on command byte and parameter index (a partial repair)
          "noWait"   the updater does not wait for wait_lock          (sensitivity)
          "lifo"     the updater takes the newest request first       (sensitivity)
          "wrap"     out-of-range integers are wrapped, not refused   (sensitivity)
@@ -51,20 +57,25 @@ P == INSTANCE ParamProtoProps
 VARIABLES cf,                             \* the configuration (never changes; a variable so that the
                                           \* trace spec can take it from each trace)
           ust, ucur,                      \* users: "idle" | "put", request being put
-          oneShots,                       \* registered one-shot port callbacks, in order: [cmd, p, rid]
-          reqQ,                           \* _ParamUpdater.request_queue
-          upc, cur, waitLock, lockPat, lockRid,
+          oneShots,                       \* pre-fix variants only: registered one-shot port callbacks, in order:
+                                          \* [cmd, p, rid]
+          reqQ,                           \* _ParamUpdater.request_queue: [rid, chan, data]; a misc entry carries its
+                                          \* reply callback (pk.reply_callback, identified here by the entry's rid)
+          upc, cur, waitLock, lockPat,
+          replyCb,                        \* _ParamUpdater._reply_callback: [cmd, p, rid] of the misc request in flight (rid 0 = None)
           devq, dval, dstored,            \* device: received, not yet served; values; stored values
           inq,                            \* link.in_queue (emitted, not yet dispatched)
-          dpc, snap, dpk, drid,           \* dispatcher
+          dpc, snap, dpk, dcb,            \* dispatcher (dcb: reply callback taken, to be called after the release)
           cache,                          \* Param.values (typed bytes)
           nextRid, nnotif,
           calls, issued, wire, down, rxs, gots     \* history (ParamProtoProps)
 
-vars == <<cf, ust, ucur, oneShots, reqQ, upc, cur, waitLock, lockPat, lockRid, devq, dval, dstored, inq,
-          dpc, snap, dpk, drid, cache, nextRid, nnotif, calls, issued, wire, down, rxs, gots>>
+vars == <<cf, ust, ucur, oneShots, reqQ, upc, cur, waitLock, lockPat, replyCb, dcb, devq, dval, dstored, inq,
+          dpc, snap, dpk, cache, nextRid, nnotif, calls, issued, wire, down, rxs, gots>>
 
 NoReq == [rid |-> 0, chan |-> 0, data |-> <<>>]
+NoCb == [cmd |-> 0, p |-> 0, rid |-> 0]
+PreFix == Bug \in {"cmdOnly", "cmdId"}
 Raw(x) == [k |-> "raw", b |-> x]
 Known(p) == p \in 1..cf.np
 Remove(s, e) == SelectSeq(s, LAMBDA x : x # e)
@@ -73,10 +84,11 @@ Init ==
     /\ cf = Cfg0
     /\ ust = [u \in Users |-> "idle"] /\ ucur = [u \in Users |-> NoReq]
     /\ oneShots = <<>> /\ reqQ = <<>>
-    /\ upc = "get" /\ cur = NoReq /\ waitLock = FALSE /\ lockPat = <<>> /\ lockRid = 0
+    /\ upc = "get" /\ cur = NoReq /\ waitLock = FALSE /\ lockPat = <<>>
+    /\ replyCb = NoCb /\ dcb = NoCb
     /\ devq = <<>> /\ dval = cf.init /\ dstored = cf.stored0
     /\ inq = <<>>
-    /\ dpc = "recv" /\ snap = <<>> /\ dpk = [chan |-> 0, data |-> <<>>] /\ drid = 0
+    /\ dpc = "recv" /\ snap = <<>> /\ dpk = [chan |-> 0, data |-> <<>>]
     /\ cache = cf.init
     /\ nextRid = 1 /\ nnotif = 0
     /\ calls = <<>> /\ issued = <<>> /\ wire = <<>> /\ down = <<>> /\ rxs = <<>> /\ gots = <<>>
@@ -120,12 +132,12 @@ UBegin(u, op) ==
           ELSE /\ calls' = Append(calls, [c EXCEPT !.done = FALSE])
                /\ ust' = [ust EXCEPT ![u] = "put"]
                /\ ucur' = [ucur EXCEPT ![u] = [rid |-> rid, chan |-> PacketOf(op).chan, data |-> PacketOf(op).data]]
-               /\ oneShots' = IF P!IsMisc(op.k)
+               /\ oneShots' = IF P!IsMisc(op.k) /\ PreFix
                               THEN Append(oneShots, [cmd |-> P!CmdOf(op.k), p |-> op.p, rid |-> rid])
                               ELSE oneShots
                /\ UNCHANGED gots
-    /\ UNCHANGED <<cf, reqQ, upc, cur, waitLock, lockPat, lockRid, devq, dval, dstored, inq, dpc, snap, dpk,
-                   drid, cache, nnotif, issued, wire, down, rxs>>
+    /\ UNCHANGED <<cf, replyCb, dcb, reqQ, upc, cur, waitLock, lockPat, devq, dval, dstored, inq, dpc, snap, dpk,
+                   cache, nnotif, issued, wire, down, rxs>>
 
 UPut(u) ==
     /\ ust[u] = "put"
@@ -134,8 +146,8 @@ UPut(u) ==
     /\ calls' = [i \in DOMAIN calls |-> IF calls[i].rid = ucur[u].rid THEN [calls[i] EXCEPT !.done = TRUE] ELSE calls[i]]
     /\ ust' = [ust EXCEPT ![u] = "idle"]
     /\ ucur' = [ucur EXCEPT ![u] = NoReq]
-    /\ UNCHANGED <<cf, oneShots, upc, cur, waitLock, lockPat, lockRid, devq, dval, dstored, inq, dpc, snap, dpk,
-                   drid, cache, nextRid, nnotif, wire, down, rxs, gots>>
+    /\ UNCHANGED <<cf, replyCb, dcb, oneShots, upc, cur, waitLock, lockPat, devq, dval, dstored, inq, dpc, snap, dpk,
+                   cache, nextRid, nnotif, wire, down, rxs, gots>>
 
 \* ------------------------------------------------------------------ updater thread
 UpdGet ==
@@ -144,16 +156,18 @@ UpdGet ==
        THEN cur' = reqQ[Len(reqQ)] /\ reqQ' = SubSeq(reqQ, 1, Len(reqQ) - 1)
        ELSE cur' = Head(reqQ) /\ reqQ' = Tail(reqQ)
     /\ upc' = "lock"
-    /\ UNCHANGED <<cf, ust, ucur, oneShots, waitLock, lockPat, lockRid, devq, dval, dstored, inq, dpc, snap, dpk,
-                   drid, cache, nextRid, nnotif, calls, issued, wire, down, rxs, gots>>
+    /\ UNCHANGED <<cf, replyCb, dcb, ust, ucur, oneShots, waitLock, lockPat, devq, dval, dstored, inq, dpc, snap, dpk,
+                   cache, nextRid, nnotif, calls, issued, wire, down, rxs, gots>>
 
 UpdLock ==
     /\ upc = "lock" /\ (~waitLock \/ Bug = "noWait")
     /\ waitLock' = TRUE
     /\ lockPat' = IF cur.chan = 3 THEN SubSeq(cur.data, 1, 3) ELSE SubSeq(cur.data, 1, 2)
-    /\ lockRid' = cur.rid
+    /\ replyCb' = IF cur.chan = 3 /\ ~PreFix
+                   THEN [cmd |-> cur.data[1], p |-> P!IdOf(SubSeq(cur.data, 2, 3)), rid |-> cur.rid]
+                   ELSE replyCb                    \* (read/write requests leave _reply_callback alone)
     /\ upc' = "send"
-    /\ UNCHANGED <<cf, ust, ucur, oneShots, reqQ, cur, devq, dval, dstored, inq, dpc, snap, dpk, drid, cache,
+    /\ UNCHANGED <<cf, dcb, ust, ucur, oneShots, reqQ, cur, devq, dval, dstored, inq, dpc, snap, dpk, cache,
                    nextRid, nnotif, calls, issued, wire, down, rxs, gots>>
 
 NAns == Cardinality({i \in DOMAIN down : down[i].kind = "ans"})
@@ -163,14 +177,14 @@ UpdSend ==
     /\ wire' = Append(wire, [chan |-> cur.chan, data |-> cur.data, nans |-> NAns])
     /\ devq' = Append(devq, [chan |-> cur.chan, data |-> cur.data, w |-> Len(wire) + 1])
     /\ upc' = "unlock"
-    /\ UNCHANGED <<cf, ust, ucur, oneShots, reqQ, cur, waitLock, lockPat, lockRid, dval, dstored, inq, dpc, snap,
-                   dpk, drid, cache, nextRid, nnotif, calls, issued, down, rxs, gots>>
+    /\ UNCHANGED <<cf, replyCb, dcb, ust, ucur, oneShots, reqQ, cur, waitLock, lockPat, dval, dstored, inq, dpc, snap,
+                   dpk, cache, nextRid, nnotif, calls, issued, down, rxs, gots>>
 
 UpdDone ==
     /\ upc = "unlock"
     /\ upc' = "get" /\ cur' = NoReq
-    /\ UNCHANGED <<cf, ust, ucur, oneShots, reqQ, waitLock, lockPat, lockRid, devq, dval, dstored, inq, dpc, snap,
-                   dpk, drid, cache, nextRid, nnotif, calls, issued, wire, down, rxs, gots>>
+    /\ UNCHANGED <<cf, replyCb, dcb, ust, ucur, oneShots, reqQ, waitLock, lockPat, devq, dval, dstored, inq, dpc, snap,
+                   dpk, cache, nextRid, nnotif, calls, issued, wire, down, rxs, gots>>
 
 \* ------------------------------------------------------------------ device (firmware twin)
 \* [fw param_logic.c] read: id, 0, value; write: id, value after the write (read-only: unchanged);
@@ -197,7 +211,7 @@ DevAnswer ==
           /\ inq' = Append(inq, [chan |-> q.chan, data |-> rdata])
           /\ down' = Append(down, [kind |-> "ans", chan |-> q.chan, data |-> rdata, w |-> q.w])
     /\ devq' = Tail(devq)
-    /\ UNCHANGED <<cf, ust, ucur, oneShots, reqQ, upc, cur, waitLock, lockPat, lockRid, dpc, snap, dpk, drid, cache,
+    /\ UNCHANGED <<cf, replyCb, dcb, ust, ucur, oneShots, reqQ, upc, cur, waitLock, lockPat, dpc, snap, dpk, cache,
                    nextRid, nnotif, calls, issued, wire, rxs, gots>>
 
 DevNotify(n) ==
@@ -207,8 +221,8 @@ DevNotify(n) ==
     /\ LET data == <<1>> \o P!IdBytes(n.p) \o n.v IN
        /\ inq' = Append(inq, [chan |-> 3, data |-> data])
        /\ down' = Append(down, [kind |-> "ntf", chan |-> 3, data |-> data, w |-> 0])
-    /\ UNCHANGED <<cf, ust, ucur, oneShots, reqQ, upc, cur, waitLock, lockPat, lockRid, devq, dstored, dpc, snap, dpk,
-                   drid, cache, nextRid, calls, issued, wire, rxs, gots>>
+    /\ UNCHANGED <<cf, replyCb, dcb, ust, ucur, oneShots, reqQ, upc, cur, waitLock, lockPat, devq, dstored, dpc, snap, dpk,
+                   cache, nextRid, calls, issued, wire, rxs, gots>>
 
 \* ------------------------------------------------------------------ dispatcher thread
 \* update callbacks in the order the code calls them: per-parameter, per-group, all
@@ -233,19 +247,24 @@ Decode(e, d) ==
                   ELSE IF d[4] = 2 THEN [ok |-> TRUE, pay |-> <<>>]       \* errno.ENOENT test on data[3]
                   ELSE [ok |-> Len(d) - 3 = w, pay |-> <<P!SubSeqSafe(d, 4, Len(d))>>]
 
-Fires(e, pk, answered) ==
+\* pre-fix variants: which registered one-shot callbacks take the packet
+Fires(e, pk) ==
     /\ pk.chan = 3 /\ Len(pk.data) >= 3 /\ pk.data[1] = e.cmd
-    /\ CASE Bug = "cmdId" -> P!IdOf(SubSeq(pk.data, 2, 3)) = e.p
-         [] Bug = "none" -> e.rid = answered
-         [] OTHER -> TRUE
+    /\ (Bug = "cmdId" => P!IdOf(SubSeq(pk.data, 2, 3)) = e.p)
 
-RECURSIVE Shots(_, _, _, _, _, _)
-Shots(pk, sn, i, os, acc, answered) ==
+RECURSIVE Shots(_, _, _, _, _)
+Shots(pk, sn, i, os, acc) ==
     IF i > Len(sn) THEN [os |-> os, cbs |-> acc]
     ELSE LET e == sn[i]  dec == Decode(e, pk.data) IN
-         IF Fires(e, pk, answered) /\ dec.ok
-         THEN Shots(pk, sn, i + 1, Remove(os, e), Append(acc, [rid |-> e.rid, pay |-> dec.pay]), answered)
-         ELSE Shots(pk, sn, i + 1, os, acc, answered)
+         IF Fires(e, pk) /\ dec.ok
+         THEN Shots(pk, sn, i + 1, Remove(os, e), Append(acc, [rid |-> e.rid, pay |-> dec.pay]))
+         ELSE Shots(pk, sn, i + 1, os, acc)
+
+\* repaired code: the reply callback c taken from _reply_callback is called with the packet (the closure
+\* still looks at channel and command byte and decodes with its own parameter's type)
+OwnCb(c, pk) ==
+    IF c.rid # 0 /\ pk.chan = 3 /\ Len(pk.data) >= 3 /\ pk.data[1] = c.cmd /\ Decode(c, pk.data).ok
+    THEN <<[rid |-> c.rid, pay |-> Decode(c, pk.data).pay]>> ELSE <<>>
 
 DispRecv ==
     /\ dpc = "recv" /\ inq # <<>>
@@ -263,27 +282,27 @@ DispRecv ==
        /\ dpk' = pk
        /\ IF match
           THEN /\ lockPat' = <<>>
-               /\ drid' = lockRid
+               /\ IF pk.chan = 3 THEN dcb' = replyCb /\ replyCb' = NoCb ELSE UNCHANGED <<dcb, replyCb>>
                /\ snap' = oneShots
                /\ dpc' = "rel"
                /\ rxs' = Append(rxs, [chan |-> pk.chan, data |-> d, upds |-> upds, cbs |-> <<>>])
                /\ UNCHANGED oneShots
-          ELSE LET r == Shots(pk, oneShots, 1, oneShots, <<>>, 0) IN
+          ELSE LET r == Shots(pk, oneShots, 1, oneShots, <<>>) IN
                /\ oneShots' = r.os
                /\ rxs' = Append(rxs, [chan |-> pk.chan, data |-> d, upds |-> upds, cbs |-> r.cbs])
-               /\ UNCHANGED <<lockPat, drid, snap, dpc>>
+               /\ UNCHANGED <<lockPat, snap, dpc, dcb, replyCb>>
     /\ inq' = Tail(inq)
-    /\ UNCHANGED <<cf, ust, ucur, reqQ, upc, cur, waitLock, lockRid, devq, dval, dstored, nextRid, nnotif,
+    /\ UNCHANGED <<cf, ust, ucur, reqQ, upc, cur, waitLock, devq, dval, dstored, nextRid, nnotif,
                    calls, issued, wire, down, gots>>
 
 DispRel ==
     /\ dpc = "rel"
     /\ waitLock' = FALSE
-    /\ LET r == Shots(dpk, snap, 1, oneShots, <<>>, drid) IN
+    /\ LET r == Shots(dpk, snap, 1, oneShots, <<>>) IN
        /\ oneShots' = r.os
-       /\ rxs' = [rxs EXCEPT ![Len(rxs)].cbs = r.cbs]
-    /\ dpc' = "recv" /\ snap' = <<>>
-    /\ UNCHANGED <<cf, ust, ucur, reqQ, upc, cur, lockPat, lockRid, devq, dval, dstored, inq, dpk, drid, cache,
+       /\ rxs' = [rxs EXCEPT ![Len(rxs)].cbs = OwnCb(dcb, dpk) \o r.cbs]
+    /\ dpc' = "recv" /\ snap' = <<>> /\ dcb' = NoCb
+    /\ UNCHANGED <<cf, replyCb, ust, ucur, reqQ, upc, cur, lockPat, devq, dval, dstored, inq, dpk, cache,
                    nextRid, nnotif, calls, issued, wire, down, gots>>
 
 Next == \/ \E u \in Users, op \in Ops : UBegin(u, op)
